@@ -36,6 +36,17 @@ UNIT = {
                 'env.mon@.wrong == old(env).mon@.wrong', 'env.mon@.owed is None', '!env.mon@.in_trap', 'env.mon@.in_trap == old(env).mon@.in_trap',
                 'env.mon@.runs - old(env).mon@.runs == env.mon@.taken_commands - old(env).mon@.taken_commands',
             ]}}}),
+        (SG, ['fn run_trap_if_caught'], {'ret': 'r', 'rewrites': ['strip-async'],
+            'token_rewrites': [('env . traps . take_signal_if_caught ( signal )', 'verif_take_if_caught(env, signal)')],
+            'requires': ['old(env).mon@.owed is None', '!old(env).mon@.in_trap'],
+            'ensures': [
+                # "... or on interrupting `wait`": if this signal is pending with a command action, exactly that command is run for
+                # exactly this signal, once, and its result is the answer; otherwise nothing runs and the answer is None
+                'final(env).mon@.wrong == old(env).mon@.wrong', 'final(env).mon@.owed is None',
+                'final(env).mon@.runs - old(env).mon@.runs == final(env).mon@.taken_commands - old(env).mon@.taken_commands',
+                'r is Some <==> final(env).mon@.runs == old(env).mon@.runs + 1', 'r is None ==> final(env).mon@.runs == old(env).mon@.runs',
+                'final(env).mon@.commands == old(env).mon@.commands',
+            ]}),
         ('yash-semantics/src/runner.rs', ['fn run_command'], {'ret': 'r', 'rewrites': ['strip-async'],
             'requires': ['old(env).mon@.owed is None'],
             'ensures': [
